@@ -175,7 +175,17 @@ def ident_site(repo: Repo) -> List[Ob]:
             if isinstance(probe, ast.Name) and probe.id not in fi.params and any(
                     isinstance(l_, (ast.For, ast.comprehension)) and any(isinstance(t_, ast.Name) and t_.id == probe.id for t_ in ast.walk(l_.target)) for l_ in ast.walk(fi.node)):
                 ptxt = "<loopvar>"
-            key = f"{how}:probe={ptxt}|container={src(cont)}"
+            # a local that is a plain copy of the operand tuple (`state_list = list(states)`) is named by that role, not by its identifier
+            ctxt = src(cont)
+            va_ = fi.node.args.vararg.arg if fi.node.args.vararg else None
+            if isinstance(cont, ast.Name) and va_ and cont.id not in fi.params:
+                from ..model import single_defs as _sd4
+                dv = _sd4(fi.node).get(cont.id)
+                if dv is not None and ((isinstance(dv, ast.Call) and isinstance(dv.func, ast.Name) and dv.func.id in ("list", "tuple") and len(dv.args) == 1 and src(dv.args[0]) == va_)
+                                       or (isinstance(dv, ast.ListComp) and len(dv.generators) == 1 and not dv.generators[0].ifs and src(dv.generators[0].iter) == va_
+                                           and src(dv.elt) == src(dv.generators[0].target))):
+                    ctxt = f"<copy of *{va_}>"
+            key = f"{how}:probe={ptxt}|container={ctxt}"
             if not veq:
                 obs.append(ok("IDENT-site", fi, key, props, n, "no state class has value equality"))
                 continue
